@@ -127,6 +127,12 @@ static int c02_main(int argc,char **argv){
       printf("restart rc=%d\n",vorbis_synthesis_restart(&c2vd));
     }else if(!strcmp(tok[0],"halfrate")&&c2_have&&c2vi.codec_setup){
       printf("halfrate rc=%d\n",vorbis_synthesis_halfrate(&c2vi,atoi(tok[1])));
+    }else if(!strcmp(tok[0],"fn")&&n>=3&&!strcmp(tok[1],"ilog")){
+      /* the exported functions whose bodies tools/c2lean.py translates: the driver runs the GENERATED Lean on the same arguments */
+      printf("fn %d\n",ov_ilog((ogg_uint32_t)strtoul(tok[2],NULL,10)));
+    }else if(!strcmp(tok[0],"fn")&&n>=4&&!strcmp(tok[1],"qv")){
+      static_codebook sb; memset(&sb,0,sizeof sb); sb.entries=atol(tok[2]); sb.dim=atol(tok[3]);
+      if(sb.dim<1||sb.entries>=(1L<<24)) printf("fn refused\n"); else printf("fn %ld\n",_book_maptype1_quantvals(&sb));
     }else if(!strcmp(tok[0],"clear")){
       c2_clear(); printf("cleared\n");
     }else{
